@@ -808,7 +808,21 @@ func (h *harness) caseRequestLine(method, s string) {
 		return
 	}
 	req := base.Request{Method: base.Method(method), URL: u, Header: base.Header{"CSeq": base.HeaderValue{"1"}}}
-	byts, err := req.Marshal()
+	var byts []byte
+	panicked := false
+	func() {
+		defer func() {
+			if r := recover(); r != nil {
+				panicked = true
+			}
+		}()
+		byts, err = req.Marshal()
+	}()
+	if panicked {
+		h.ctx.Eval()
+		h.ctx.Failf(-1, "request-marshal-panic", c.String(), "Request.Marshal panicked for %q", s)
+		return
+	}
 	if err != nil {
 		return
 	}
@@ -1491,7 +1505,8 @@ func (e *e2e) e2eCase(g *gen, tail string) {
 		h.credentialOracle(-1, input, rl, u)
 	}
 	if u.User != nil {
-		if pw, ok := u.User.Password(); ok && len(pw) >= 4 && bytes.Contains(wire, []byte(pw)) {
+		if pw, ok := u.User.Password(); ok && len(pw) >= 4 && !strings.Contains(u.CloneWithoutCredentials().String(), pw) &&
+			bytes.Contains(wire, []byte(pw)) {
 			h.ctx.Failf(-1, "credentials-on-wire", input, "password %q appears in what the client wrote", pw)
 		}
 	}
@@ -1594,9 +1609,9 @@ func main() {
 	g := &gen{r: ctx.Rng}
 	h.corpus()
 	h.endToEnd(g, true, 0)
-	h.unitCases(g, ctx.Budget(6000, 400000))
+	h.unitCases(g, ctx.Budget(22000, 600000))
 	if ctx.Thorough {
 		h.exhaustive()
 	}
-	h.endToEnd(g, false, ctx.Budget(30, 2000))
+	h.endToEnd(g, false, ctx.Budget(80, 3000))
 }
